@@ -793,3 +793,43 @@ func runExportImport(seed int64, cw *CaseWriter, rep *lib.Report, r *lib.Rand) {
 	h.Exec(mig(3, tgt0+1, "tx")) // an unrelated pair
 	finish(h, rep, "scenario-export-import")
 }
+
+// runGovKinds: expedited proposals (incl. the conversion of a failed one into a regular proposal, which keeps it open
+// past its first end time) and a proposal whose message type has a custom voting period
+func runGovKinds(seed int64, cw *CaseWriter, rep *lib.Report, r *lib.Rand) {
+	h := NewHist(seed*1000+972, cw, rep)
+	h.setupBasic()
+	h.Exec(Op{Kind: "mint", A: 0, Denom: "FX", Amt: fx(200000)})
+	h.Exec(Op{Kind: "mint", A: oth0, Denom: "FX", Amt: fx(200000)})
+	h.Exec(Op{Kind: "govparams", Mode: "kinds"})
+	h.Exec(Op{Kind: "block", Dt: 5 * sec})
+	first := uint64(h.snap().NextPid)
+	h.Exec(Op{Kind: "submit", A: 0, Amt: fx(1000), Mode: "exp"})         // expedited, deposit period; source 0 proposer
+	h.Exec(Op{Kind: "submit", A: oth0, Amt: fx(100000), Mode: "exp"})    // expedited, (probably) voting at once
+	h.Exec(Op{Kind: "submit", A: oth0, Amt: fx(10000), Denom: "toggle"}) // custom 7-day voting period
+	h.Exec(Op{Kind: "deposit", A: 1, Pid: first + 1, Amt: fx(300)})
+	h.Exec(Op{Kind: "vote", A: 2, Pid: first + 1})
+	h.Exec(Op{Kind: "vote", A: tgt0 + 3, Pid: first + 2})
+	h.Exec(Op{Kind: "deposit", A: oth0, Pid: first, Amt: fx(150000)}) // opens the expedited voting period of the first
+	attempts := func() {
+		h.Exec(mig(0, tgt0, "tx"))
+		h.Exec(mig(1, tgt0+1, "tx"))
+		h.Exec(mig(2, tgt0+2, "tx"))
+		h.Exec(mig(3, tgt0+3, "tx"))
+	}
+	h.Exec(Op{Kind: "block", Dt: 5 * sec})
+	attempts()
+	for _, dt := range []int64{hour, day + int64(r.Intn(1000))*sec, 2 * day, 5 * day, 8 * day} {
+		h.Exec(Op{Kind: "block", Dt: dt}) // expedited periods end, failed ones are converted; the custom period ends on day 7
+		h.Exec(Op{Kind: "block", Dt: 5 * sec})
+		attempts()
+	}
+	n := 0
+	for _, p := range h.snap().Props {
+		if p.Status != 3 {
+			n++
+		}
+	}
+	rep.Count(fmt.Sprintf("gov-kinds:open-at-end=%d", n))
+	finish(h, rep, "scenario-gov-kinds")
+}
